@@ -311,6 +311,7 @@ func chanFromField(v ssa.Value, name string) bool {
 
 // checkLocks: lock discipline on MemQueue.items and Writer.stopped.
 func (r *Run) checkLocks(P string) {
+	r.checkLockPairing(P)
 	T := r.P.Named(pkgOpQueue, "MemQueue")
 	if T == nil {
 		r.R.Unk(P+".lock", "anchor", "opqueue.MemQueue", "-", "-", "type not found")
@@ -413,6 +414,29 @@ func (r *Run) checkCut(P string) {
 			if fc.Kind == "stored" && strings.HasSuffix(fc.A.String(), ".Operations") {
 				okNoCut = false
 				detCut = append(detCut, "the below-threshold return carries operations")
+			}
+		}
+	}
+	// the other direction: a success return that precedes the consuming calls ("nothing to cut") is reachable
+	// only under ¬force ∧ pending < max — with force or a full batch pending, Cut must go on to cut
+	if len(consume) > 0 {
+		first := consume[0]
+		for _, c := range consume {
+			if c.Block().Dominates(first.Block()) {
+				first = c
+			}
+		}
+		for _, ri := range ff.Returns() {
+			if ri.Class != core.RetSuccess || first.Block().Dominates(ri.Ret.Block()) {
+				continue
+			}
+			if r.reachableWithout(ff, ri.Ret, []string{"false($1)"}) {
+				okNoCut = false
+				detCut = append(detCut, r.P.Pos(ri.Ret.Pos())+": 'nothing to cut' can be returned although the cut is forced")
+			}
+			if r.reachableWithout(ff, ri.Ret, []string{"cmp(OperationQueue.Len(_) < Version.Protocol(_).MaxOperationCount)"}) {
+				okNoCut = false
+				detCut = append(detCut, r.P.Pos(ri.Ret.Pos())+": 'nothing to cut' can be returned although a full batch is pending")
 			}
 		}
 	}
@@ -640,10 +664,35 @@ func (r *Run) refFixedByFirst(gf *core.FnFacts, phi *ssa.Phi, head *ssa.BasicBlo
 			if _, isC := e.(*ssa.Const); isC {
 				continue
 			}
-			// an update from an element: must be under index == 0 (first iteration)
-			updates++
+			// an update from an element: must be under index == 0 (first iteration), on a live edge,
+			// and under no further condition (the first element always fixes the reference)
 			pred := p.Block().Preds[i]
+			if !gf.IsLiveEdge(pred, p.Block()) || !gf.Live[pred] {
+				continue
+			}
+			updates++
 			in := gf.In[pred]
+			var bodyEntry core.FactSet
+			for _, hs := range head.Succs {
+				if blockReaches(gf, hs, head, nil) {
+					bodyEntry = gf.In[hs]
+					for _, fc := range gf.EdgeFacts(head, hs) {
+						if bodyEntry == nil {
+							bodyEntry = core.FactSet{}
+						}
+						bodyEntry[fc.Key()] = fc
+					}
+				}
+			}
+			for k, fc := range in {
+				if _, atEntry := bodyEntry[k]; atEntry || fc.Kind == "called" || fc.Kind == "stored" {
+					continue
+				}
+				isFirst := fc.Kind == "cmp" && fc.Op == "==" && fc.B.Op == "const" && fc.B.Name == "0" && fc.A.Op == "bin" && fc.A.Name == "+"
+				if !isFirst {
+					okAll = false // a further condition on the update of the reference
+				}
+			}
 			first := false
 			for _, fc := range in {
 				if fc.Kind == "cmp" && fc.Op == "==" && fc.B.Op == "const" && fc.B.Name == "0" && fc.A.Op == "bin" && fc.A.Name == "+" {
@@ -728,4 +777,58 @@ func (r *Run) callersHoldMutex(f *ssa.Function, rel string, depth int) (held, ex
 		}
 	}
 	return sites > 0, exclusive
+}
+
+// checkLockPairing: every Lock / RLock of the queue's mutex is paired with a
+// deferred Unlock / RUnlock of the same mutex in the same function (the only
+// release idiom the package uses). A lock that is never released blocks every
+// later Add / Peek / Remove: accepted operations are never anchored.
+func (r *Run) checkLockPairing(P string) {
+	n := 0
+	for _, f := range r.P.SubjectFuncs(pkgOpQueue) {
+		ff := r.E.Facts(f, core.Ctx{})
+		for _, b := range f.Blocks {
+			for _, ins := range b.Instrs {
+				c, ok := ins.(*ssa.Call)
+				if !ok {
+					continue
+				}
+				sc := c.Common().StaticCallee()
+				if sc == nil {
+					continue
+				}
+				want := ""
+				switch {
+				case strings.HasSuffix(sc.String(), "Mutex).Lock"):
+					want = "Unlock"
+				case strings.HasSuffix(sc.String(), "Mutex).RLock"):
+					want = "RUnlock"
+				default:
+					continue
+				}
+				n++
+				mt := ff.TB.Of(c.Common().Args[0]).String()
+				paired := false
+				for _, b2 := range f.Blocks {
+					for _, i2 := range b2.Instrs {
+						d, isD := i2.(*ssa.Defer)
+						if !isD {
+							continue
+						}
+						dc := d.Call.StaticCallee()
+						if dc == nil || !strings.HasSuffix(dc.String(), "Mutex)."+want) || len(d.Call.Args) == 0 {
+							continue
+						}
+						if ff.TB.Of(d.Call.Args[0]).String() == mt && c.Block().Dominates(b2) {
+							paired = true
+						}
+					}
+				}
+				r.R.Check(paired, fmt.Sprintf("%s.lock.pairing.%s.%s", P, core.FuncName(f), want), "E8 pairing: every "+strings.TrimSuffix(strings.TrimPrefix(sc.Name(), ""), "")+" of the queue mutex is followed by a deferred "+want+" of the same mutex in the same function",
+					core.FuncName(f), r.P.Pos(c.Pos()), "a queue lock that is never released blocks every later Add, Peek and Remove: accepted operations are never anchored",
+					"deferred "+want, "no deferred "+want+" of "+mt+" after this lock")
+			}
+		}
+	}
+	r.R.Floor(P+".lock.pairing.floor", "instance floor", n, 6, "Lock/RLock calls in the queue package")
 }
